@@ -34,7 +34,8 @@ RULE = ("histories of queries (isomorphic / get_mappings / _pre_check / boolean 
 EXHAUSTIVE = {"quick": True, "thorough": True}
 EXPLANATION = ("Exhaustive sub-space (both tiers): all unordered pairs of iso classes <= 3 nodes over 2 elements x {absent, order 1, "
                "order 2} (plus every class against a relabelled copy of itself), all ordered pairs <= 2 nodes with hcount {0,1}, and all "
-               "query sequences of length <= 4 (isomorphic) / 2 (isomorphic + get_mappings) over 3 graph objects x 2 engines; every "
+               "query sequences of length <= 4 (isomorphic) / 2 (isomorphic + get_mappings) over 3 graph objects x 2 engines and of length "
+               "<= 3 over 3 engines whose attribute selections are a permutation / a subset of each other; every "
                "filter flag, induced and monomorphism mode, several attribute selections, queries issued in PRNG order on shared graph "
                "objects.  The rest (3-node hcount pairs, random pairs <= 8 nodes, long histories; thorough: 4-node classes) is sampled.")
 TRUSTED_BASE = [
@@ -477,11 +478,17 @@ NAMES_DEF = [["element", "*"], ["charge", 0]]
 
 
 def _engines(rng):
-    sels = [(["element", "charge"], ["order"]), (["element"], ["order"]), (["element"], []), ([], ["order"]), (["element", "charge"], [])]
+    # attribute selections that are permutations / subsets / supersets of each other: engines share the class-level WL cache,
+    # which must keep them apart (key = the node_attrs tuple in the engine's own order)
+    sels = [(["element", "charge"], ["order"]), (["charge", "element"], ["order"]), (["element"], ["order"]), (["element"], []),
+            ([], ["order"]), (["element", "charge"], []), (["charge"], ["order"]), (["charge", "element"], []),
+            (["element", "charge", "aromatic"], ["order"])]
     es = [dict(E_FULL), dict(E_FULL, wl=True)]
     for _ in range(2):
         na, ea = rng.choice(sels)
         es.append({"na": list(na), "ea": list(ea), "wl": rng.random() < 0.7, "mm": rng.choice([None, None, 1, 2])})
+    if rng.random() < 0.25:
+        es[rng.choice([2, 3])] = {"na": ["charge", "element"], "ea": ["order"], "wl": True, "mm": None}
     return es
 
 
@@ -584,8 +591,8 @@ def gen_cases(tier, rng):
         small = noh[1] + noh[2] + noh[3]
         pairs = [(a, b) for a, b in itertools.combinations_with_replacement(small, 2)]
         pairs += [(a, b) for a, b in itertools.combinations_with_replacement(noh[4], 2)] if len(noh[4]) < 200 else \
-                 [(rng.choice(noh[4]), rng.choice(noh[4])) for _ in range(25000)]
-        pairs += [(rng.choice(small), rng.choice(noh[4])) for _ in range(8000)]
+                 [(rng.choice(noh[4]), rng.choice(noh[4])) for _ in range(15000)]
+        pairs += [(rng.choice(small), rng.choice(noh[4])) for _ in range(5000)]
     else:
         pairs = list(itertools.combinations_with_replacement(reps, 2))
     for a, b in pairs:
@@ -596,7 +603,7 @@ def gen_cases(tier, rng):
     # ---- hcount alphabet: ordered pairs
     hsmall = wh[1] + wh[2]
     hp = [(a, b) for a in hsmall for b in hsmall]
-    n3 = 500 if tier == "quick" else 10000
+    n3 = 500 if tier == "quick" else 6000
     hp += [(rng.choice(wh[3]), rng.choice(wh[3] if rng.random() < 0.7 else hsmall)) for _ in range(n3)]
     for a, b in hp:
         gs = [_present(a, rng), _present(b, rng)]
@@ -606,7 +613,7 @@ def gen_cases(tier, rng):
         prs = [(0, 1), (1, 0)] + ([(0, 2), (2, 0)] if len(gs) == 3 else [])
         cases.append(dict(kind="hcount-pairs", graphs=gs, engines=es, queries=_battery(rng, prs, len(es), nosubs=((2, 0),))))
     # ---- random pairs <= 8 nodes: relabelled copies, one-edit neighbours, planted sub-patterns
-    for _ in range(600 if tier == "quick" else 8000):
+    for _ in range(600 if tier == "quick" else 6000):
         n = rng.randint(1, 8) if rng.random() < 0.5 else rng.randint(1, 6)
         a = _rand_graph(rng, n, hc=rng.random() < 0.6)
         z = rng.random()
@@ -636,11 +643,18 @@ def gen_cases(tier, rng):
             cases.append(dict(kind="seq-exh", graphs=trio, engines=e2, queries=[list(q) for q in seq]))
     for seq in itertools.product(opts_all, repeat=2):
         cases.append(dict(kind="seq-exh2", graphs=trio, engines=e2, queries=[list(q) for q in seq]))
+    # three engines whose selections are a permutation (0, 1) resp. a subset (2) of each other, WL on: all sequences <= 3
+    e3 = [{"na": ["element", "charge"], "ea": ["order"], "wl": True, "mm": None}, {"na": ["charge", "element"], "ea": ["order"], "wl": True, "mm": None},
+          {"na": ["element"], "ea": ["order"], "wl": True, "mm": None}]
+    opts3 = [["iso", e, i, j] for e in (0, 1, 2) for (i, j) in ((0, 1), (0, 2), (1, 2))]
+    for L in (1, 2, 3):
+        for seq in itertools.product(opts3, repeat=L):
+            cases.append(dict(kind="seq-exh3", graphs=trio, engines=e3, queries=[list(q) for q in seq]))
     if tier == "thorough":
-        for seq in rng.sample(list(itertools.product(opts_all, repeat=3)), 8000):
+        for seq in rng.sample(list(itertools.product(opts_all, repeat=3)), 5000):
             cases.append(dict(kind="seq-samp3", graphs=trio, engines=e2, queries=[list(q) for q in seq]))
     # ---- random long histories (up to 30 queries, 3-4 graph objects, 3-4 engines)
-    for _ in range(300 if tier == "quick" else 2500):
+    for _ in range(300 if tier == "quick" else 2000):
         base = _rand_graph(rng, rng.randint(2, 5), hc=rng.random() < 0.5)
         gs = [base, _present(base, rng, extra=9), _edit(_present(base, rng, extra=9), rng)]
         if rng.random() < 0.5:
@@ -650,9 +664,13 @@ def gen_cases(tier, rng):
             v = {"nodes": [[n, dict(a)] for n, a in gs[1]["nodes"]], "edges": gs[1]["edges"]}
             rng.choice(v["nodes"])[1]["charge"] = rng.choice([1, -1, 2])
             gs[1] = v
+        gs.append(_present(base, rng, extra=9))          # a second isomorphic copy: one of the two may be cached, the other new
         es = _engines(rng)
         for s in es:
             s["wl"] = rng.random() < 0.8
+        if rng.random() < 0.5:      # a pair of engines listing the same attributes in different orders, both filtering
+            es[1] = {"na": ["element", "charge"], "ea": ["order"], "wl": True, "mm": None}
+            es[2] = {"na": ["charge", "element"], "ea": ["order"], "wl": True, "mm": rng.choice([None, 1])}
         qs = []
         for _ in range(rng.randint(5, 30)):
             k = rng.choice(["iso", "iso", "iso", "maps", "pre"])
